@@ -113,8 +113,11 @@ func (p *atomParser) expr() *T {
 			return nil
 		}
 		return &T{K: "param", Name: name, Typ: typ}
-	case c >= '0' && c <= '9':
+	case c >= '0' && c <= '9' || c == '-' && p.i+1 < len(p.s) && p.s[p.i+1] >= '0' && p.s[p.i+1] <= '9':
 		j := p.i
+		if c == '-' {
+			j++
+		}
 		for j < len(p.s) && p.s[j] >= '0' && p.s[j] <= '9' {
 			j++
 		}
